@@ -53,6 +53,8 @@ class ScriptedSocket(socket.socket):
         self._chunks = list(chunks)
 
     def recv(self, n, flags=0):
+        if not isinstance(n, int) or n < 0:
+            raise ValueError("negative buffersize in recv")       # what a real socket says
         if self._chunks:
             return self._chunks.pop(0)
         return b""
@@ -151,6 +153,8 @@ def run_frame(line):
         # the definition-level generator used as a framer (`ccsds_headers_only=True`) yields the same raw packets
         try:
             third = _run_frame_headers_only(skip, kind, r, chunks)
+            if third == first:
+                third = _run_frame_headers_only(skip, kind, r, chunks, combine=True)
         except Exception as e:  # noqa: BLE001
             return f"err headers-only-generator !{type(e).__name__}"
         if third != first and first != "nonterm":
@@ -161,7 +165,7 @@ def run_frame(line):
 _HDR_DEF = []
 
 
-def _run_frame_headers_only(skip, kind, r, chunks):
+def _run_frame_headers_only(skip, kind, r, chunks, combine=False):
     if not _HDR_DEF:
         from harness import xbuild
         from harness.props import c12
@@ -170,7 +174,8 @@ def _run_frame_headers_only(skip, kind, r, chunks):
     src, kw = make_source(kind, r, chunks)
     out = []
     try:
-        for item in _HDR_DEF[0].packet_generator(src, ccsds_headers_only=True, skip_header_bytes=skip, **kw):
+        for item in _HDR_DEF[0].packet_generator(src, ccsds_headers_only=True, skip_header_bytes=skip,
+                                                 combine_segmented_packets=combine, **kw):
             out.append(bytes(item))
             if len(out) > total // 7 + 3:
                 return "nonterm"
